@@ -10,6 +10,7 @@
    positive, one unit per unit id); the check evaluates [sane] on the live
    bundled converter on every run. *)
 From CL Require Import Base.StrLemmas Model.Aisle Model.Group Proofs.GroupProofs.
+From CL Require Model.Convert Proofs.ConvertProofs Proofs.GroupFit.
 From Coq Require Import QArith Permutation.
 
 (* adding one quantity adds exactly its contribution - to EVERY group g
@@ -113,11 +114,15 @@ Print Assumptions C10_categorize_refuted.
    evaluates it on every recipe the implementation produces.  [owned all i x]:
    x's own quantity, then those of the references to index i, in recipe order.
    [recipe_free]: no written quantity has an offset unit (temperature).
+   The hypothesis on [fitq] (Quantity::fit keeps the contribution of offset-free
+   quantities and stays offset-free) is a THEOREM for the modelled fit:
+   C10_fit_range_preserves below; C10_list_bundled has no oracle left.
    group_ingredients never panics (no index out of range), reports exactly the
    definitions in recipe order ([def_indices]) - references are not entries -
    and the group of each holds exactly what is counted under it. *)
 Theorem C10_definition_quantities : forall T (fitq : qty -> option qty) all,
-  sane T = true -> (forall q q', fitq q = Some q' -> contrib T q' ≡ contrib T q) ->
+  sane T = true ->
+  (forall q q', q_free T q -> fitq q = Some q' -> contrib T q' ≡ contrib T q /\ q_free T q') ->
   consistent all = true -> recipe_free T all ->
   exists es, group_ingredients T fitq all = Done es /\
              map (fun e => fst (fst e)) es = def_indices all 0 /\
@@ -144,26 +149,132 @@ Print Assumptions C10_counted_once.
    definition that should be listed (not HIDDEN, not REF) and is displayed as n.
    add_recipe over any sequence of recipes, starting from any list. *)
 Theorem C10_list : forall T (fitq : qty -> option qty),
-  sane T = true -> (forall q q', fitq q = Some q' -> contrib T q' ≡ contrib T q) ->
-  (forall q q', fitq q = Some q' -> q_free T q -> q_free T q') ->
+  sane T = true ->
+  (forall q q', q_free T q -> fitq q = Some q' -> contrib T q' ≡ contrib T q /\ q_free T q') ->
   forall rs l, recipes_ok T rs ->
   exists l', add_recipes T fitq l rs = Done l' /\
     forall n, name_total T n l' ≡ name_total T n l ⊕ ssum (map (fun all => recipe_lists T all n) rs).
-Proof. intros T fitq Hs H1 H2 rs l. apply add_recipes_spec; assumption. Qed.
+Proof. intros T fitq Hs H1 rs l. apply add_recipes_spec; assumption. Qed.
 Print Assumptions C10_list.
 
 Theorem C10_list_order_independent : forall T (fitq : qty -> option qty),
-  sane T = true -> (forall q q', fitq q = Some q' -> contrib T q' ≡ contrib T q) ->
-  (forall q q', fitq q = Some q' -> q_free T q -> q_free T q') ->
+  sane T = true ->
+  (forall q q', q_free T q -> fitq q = Some q' -> contrib T q' ≡ contrib T q /\ q_free T q') ->
   forall rs rs', recipes_ok T rs -> Permutation rs rs' ->
   exists l l', add_recipes T fitq [] rs = Done l /\ add_recipes T fitq [] rs' = Done l' /\
                forall n, name_total T n l ≡ name_total T n l'.
-Proof. intros T fitq Hs H1 H2 rs rs'. apply add_recipes_order; assumption. Qed.
+Proof. intros T fitq Hs H1 rs rs'. apply add_recipes_order; assumption. Qed.
 Print Assumptions C10_list_order_independent.
 
 Example C10_list_hypotheses_satisfiable :
   exists T (fitq : qty -> option qty) all,
-    sane T = true /\ (forall q q', fitq q = Some q' -> contrib T q' ≡ contrib T q) /\
-    (forall q q', fitq q = Some q' -> q_free T q -> q_free T q') /\
+    sane T = true /\
+    (forall q q', q_free T q -> fitq q = Some q' -> contrib T q' ≡ contrib T q /\ q_free T q') /\
     consistent all = true /\ recipe_free T all /\ refs_to all 0 = [2%N].
 Proof. exact list_hyps_sat. Qed.
+
+(* ---- cookware definitions and references -------------------------------------
+   The cookware counterpart of C10_definition_quantities: group_cookware never
+   panics, reports exactly the definitions in recipe order, and the GroupedValue
+   of each holds exactly its own amount plus those of the references to it
+   ([cw_owned], recipe order): numbers summed end-wise into one leading entry
+   ([gv_wf]), every text counted as often as it is written. *)
+Theorem C10_cookware_definition_quantities : forall all,
+  cw_consistent all = true ->
+  exists es, group_cookware all = Done es /\
+             map fst es = cw_def_indices all 0 /\ Forall (cw_entry_ok all) es.
+Proof. exact group_cookware_ok. Qed.
+Print Assumptions C10_cookware_definition_quantities.
+
+Theorem C10_cookware_counted_once : forall all i j,
+  (In j (cw_refs_to all i) <-> exists y, nth_cw all j = Some y /\ crel y = RRef i true) /\
+  NoDup (cw_refs_to all i) /\
+  (cw_consistent all = true -> In j (cw_refs_to all i) ->
+     (i < j)%N /\ exists x, nth_cw all i = Some x /\ is_definition (crel x) = true).
+Proof.
+  intros all i j. split; [apply cw_refs_to_spec|]. split; [apply cw_refs_to_nodup | apply cw_refs_after].
+Qed.
+Print Assumptions C10_cookware_counted_once.
+
+(* ---- the keys of an IngredientList ---------------------------------------------
+   The BTreeMap model keeps its keys strictly increasing (byte order), hence
+   distinct: whatever add_recipes returns - no hypothesis on the recipes - has
+   distinct keys, which discharges the NoDup hypothesis of C10_categorize. *)
+Theorem C10_list_keys_nodup : forall T (fitq : qty -> option qty) rs l,
+  add_recipes T fitq [] rs = Done l -> keys_sorted l /\ NoDup (map fst l).
+Proof. exact add_recipes_nodup. Qed.
+Print Assumptions C10_list_keys_nodup.
+
+Theorem C10_list_then_categorize : forall T (fitq : qty -> option qty) rs l U inf,
+  add_recipes T fitq [] rs = Done l -> synonym_collision inf l = false ->
+  exists c, categorize false inf l = Done c /\ Permutation (entries c) (map (rekey inf) l)
+            /\ categorize_conserves U inf l c.
+Proof. exact list_then_categorize. Qed.
+Print Assumptions C10_list_then_categorize.
+
+(* ---- fit, for real ----------------------------------------------------------------
+   [GroupFit.fitq_real approx c] is Quantity::fit of Model/Convert.v (fit,
+   fit_fraction, try_fraction, convert to the best unit - the C09 model) read as
+   the [fitq] parameter; [GroupFit.table_of c] is the unit table of that
+   converter.  For every converter with positive ratios and a consistent index
+   (C09_bundled_wellformed: the shipped one), every approximation function whose
+   recorded error makes the value exact (C12), a fitted quantity keeps its
+   contribution - BOTH ends of a range, whatever unit fit moves it to - and
+   GroupedQuantity::fit keeps the total.  (Offset-free quantities: with an offset
+   unit a change of unit changes the base-unit sum by definition.) *)
+Theorem C10_fit_range_preserves :
+  forall (approx : Q -> Convert.frac_cfg -> outcome (option Convert.number)) c,
+  (forall v cfg n, approx v cfg = Done (Some n) -> Qeq (Convert.num_value n) v) ->
+  ConvertProofs.ratios_pos c -> ConvertProofs.index_consistent c ->
+  forall q q', q_free (GroupFit.table_of c) q -> GroupFit.fitq_real approx c q = Some q' ->
+  contrib (GroupFit.table_of c) q' ≡ contrib (GroupFit.table_of c) q /\ q_free (GroupFit.table_of c) q'.
+Proof. intros approx c Ha Hp Hi q q'. apply GroupFit.fitq_real_spec; assumption. Qed.
+Print Assumptions C10_fit_range_preserves.
+
+Theorem C10_fit_real_preserves :
+  forall (approx : Q -> Convert.frac_cfg -> outcome (option Convert.number)) c,
+  (forall v cfg n, approx v cfg = Done (Some n) -> Qeq (Convert.num_value n) v) ->
+  ConvertProofs.ratios_pos c -> ConvertProofs.index_consistent c ->
+  forall g, gfree (GroupFit.table_of c) g ->
+  total (GroupFit.table_of c) (fst (fit (GroupFit.fitq_real approx c) g)) ≡ total (GroupFit.table_of c) g
+  /\ gfree (GroupFit.table_of c) (fst (fit (GroupFit.fitq_real approx c) g)).
+Proof. intros approx c Ha Hp Hi g. apply GroupFit.fit_real_total; assumption. Qed.
+Print Assumptions C10_fit_real_preserves.
+
+(* nothing assumed: the modelled Number::new_approx, the converter built from the
+   regenerated units.toml *)
+Theorem C10_fit_bundled : forall g,
+  gfree (GroupFit.table_of ConvertProofs.bundled_conv) g ->
+  total (GroupFit.table_of ConvertProofs.bundled_conv)
+        (fst (fit (GroupFit.fitq_real Convert.new_approx ConvertProofs.bundled_conv) g))
+    ≡ total (GroupFit.table_of ConvertProofs.bundled_conv) g
+  /\ gfree (GroupFit.table_of ConvertProofs.bundled_conv)
+           (fst (fit (GroupFit.fitq_real Convert.new_approx ConvertProofs.bundled_conv) g)).
+Proof. exact GroupFit.fit_real_bundled. Qed.
+Print Assumptions C10_fit_bundled.
+
+(* IngredientList over the shipped converter with the modelled fit: no oracle
+   hypothesis left ([sane] of its table is computed, the fit hypothesis is
+   C10_fit_range_preserves); what remains is the recipes' consistency and that
+   they write no offset (temperature) quantity *)
+Theorem C10_list_bundled : forall rs l,
+  recipes_ok (GroupFit.table_of ConvertProofs.bundled_conv) rs ->
+  exists l', add_recipes (GroupFit.table_of ConvertProofs.bundled_conv)
+               (GroupFit.fitq_real Convert.new_approx ConvertProofs.bundled_conv) l rs = Done l' /\
+    forall n, name_total (GroupFit.table_of ConvertProofs.bundled_conv) n l'
+              ≡ name_total (GroupFit.table_of ConvertProofs.bundled_conv) n l
+                ⊕ ssum (map (fun all => recipe_lists (GroupFit.table_of ConvertProofs.bundled_conv) all n) rs).
+Proof. exact GroupFit.list_bundled. Qed.
+Print Assumptions C10_list_bundled.
+
+From Coq Require Import String.
+(* the case of the seeded change C10-4: the total 3-3.5 tsp is moved to tbsp, start
+   3 tsp (1 tbsp), end 3.5 tsp expressed in tbsp - not 3.5 *)
+Example C10_fit_moves_range :
+  q_free (GroupFit.table_of ConvertProofs.bundled_conv) GroupFit.tsp_range /\
+  exists s e, GroupFit.fitq_real Convert.new_approx ConvertProofs.bundled_conv GroupFit.tsp_range
+              = Some {| qval := VRange s e; qunit := Some (s_of "tbsp"%string) |}
+              /\ Qeq s (3 * (4928921 # 1000000000) / (14786764 # 1000000000))
+              /\ Qeq e ((7 # 2) * (4928921 # 1000000000) / (14786764 # 1000000000))
+              /\ ~ Qeq e (7 # 2).
+Proof. split; [exact GroupFit.tsp_range_free | exact GroupFit.fit_moves_range]. Qed.
